@@ -764,6 +764,9 @@ def mpl_component_path(d, origin, nt='pyfloat'):
         p = mp.Circle((d['c'][0] - ox, d['c'][1] - oy), r)
     elif d['kind'] == 'ellipse':
         p = mp.Ellipse((d['c'][0] - ox, d['c'][1] - oy), S(d['w']), S(d['h']), angle=deg_of(d['angle']))
+    elif d['kind'] == 'regular_polygon':
+        v = G.build(d).vertices
+        p = mp.Polygon(np.column_stack([np.subtract(v.x, ox, dtype=float), np.subtract(v.y, oy, dtype=float)]))
     else:
         return None
     tp = p.get_transform().transform_path(p.get_path())
@@ -802,6 +805,8 @@ def model_region(d, reg=None):
         j['deg'] = frac(F(deg_of(d['angle'])))
     if d['kind'] == 'text':
         j['text'] = d.get('text', 'label')
+    if d['kind'] == 'regular_polygon':
+        j['center'] = [frac(F(d['c'][0])), frac(F(d['c'][1]))]      # it has a `center` (compounds ask for it)
     if d['kind'] == 'compound':
         j['a'] = model_region(d['a'])
         j['b'] = model_region(d['b'])
@@ -1133,7 +1138,9 @@ class Check(PropertyCheck):
             'RegionVisual object, with and without caller kwargs - every artist against a fresh equal region, the stored visual '
             'attributes against the artist properties, visual dict unchanged (suspicious sequences re-evaluated in a fresh '
             'interpreter); histories (build, use, re-parametrise in place, draw; second artist with another origin); '
-            'RegionBoundingBox.as_artist; visual dictionaries (as the DS9 reader builds them, '
+            'RegionBoundingBox.as_artist() and .plot(origin, ax) (asymmetric origins of every container type, negative-index boxes: '
+            'corners = extent - origin, the as_artist() rectangle moved, added to the axes); mixed-shape same-centre xor compounds '
+            '(circle/ellipse/rectangle/regular polygon); visual dictionaries (as the DS9 reader builds them, '
             'user-built mpl-style, arbitrary valid keys) x caller kwargs incl. matplotlib aliases. Query points on a cloud scaled to '
             'the shape and at relative distances 1e-6..1e-1 from its boundary. Non-trivial = a shape case with at least one point '
             'inside and one outside the patch, or a case with caller kwargs.')
@@ -1219,9 +1226,11 @@ class Check(PropertyCheck):
             cases.append(case)
         n2 = 60 if tier == 'quick' else 1500
         for _ in range(n2):
-            leaf = lambda: G.gen_simple(rng, kind=rng.choice(['circle', 'ellipse', 'rectangle']), scale=rng.choice([1.0, 4.0]),
-                                        center_scale=5, include='absent')
-            a, b = leaf(), leaf()
+            leaf = lambda k: G.gen_simple(rng, kind=k, scale=rng.choice([1.0, 4.0]), center_scale=5, include='absent')
+            leaf_kinds = ['circle', 'ellipse', 'rectangle', 'regular_polygon']
+            ka = rng.choice(leaf_kinds)
+            kb = rng.choice([k for k in leaf_kinds if k != ka]) if rng.random() < 0.7 else ka     # mostly mixed shapes
+            a, b = leaf(ka), leaf(kb)
             if rng.random() < 0.85:
                 b['c'] = list(a['c'])
             d = {'kind': 'compound', 'op': rng.choice(['xor', 'xor', 'xor', 'xor', 'and', 'or']), 'a': a, 'b': b, 'include': 'absent'}
@@ -1237,12 +1246,18 @@ class Check(PropertyCheck):
         n5 = 120 if tier == 'quick' else 3000
         for _ in range(n5):
             cases.append(gen_sequence(rng))
-        n4 = 30 if tier == 'quick' else 500
+        n4 = 60 if tier == 'quick' else 1000
         for _ in range(n4):
             k = rng.choice([3, 40, 10 ** 4])
             x0, y0 = rng.randint(-k, k), rng.randint(-k, k)
-            cases.append({'kind': 'bbox', 'box': [x0, x0 + rng.randint(1, 12), y0, y0 + rng.randint(1, 12)],
-                          'caller': gen_caller(rng, 'Patch')})
+            box = [x0, x0 + rng.randint(1, 12), y0, y0 + rng.randint(1, 12)]
+            case = {'kind': 'bbox', 'box': box, 'caller': gen_caller(rng, 'Patch'), 'via': rng.choice(['as_artist', 'plot', 'plot'])}
+            if case['via'] == 'plot' and rng.random() < 0.9:
+                # RegionBoundingBox.plot(origin=..., ax=...): asymmetric origins of every container type
+                case['origin'] = gen_origin(rng, {'kind': 'rectangle', 'c': [0.5 * (box[0] + box[1]), 0.5 * (box[2] + box[3])],
+                                                  'w': box[1] - box[0], 'h': box[3] - box[2]})
+                case['origin_type'] = rng.choice(ORIGIN_TYPES)
+            cases.append(case)
         return cases
 
     # ------------------------------------------------------------------ real
@@ -1277,12 +1292,26 @@ class Check(PropertyCheck):
             return out
         if kind == 'bbox':
             bb = RegionBoundingBox(*case['box'])
+            before = repr(bb)
+            if case.get('via') == 'plot':
+                plot_axes()
             with Recorder() as rec:
-                art = bb.as_artist(**caller)
-            out = {'cls': real_class(art).__name__, 'ctor': canon_ctor(*rec.log[-1])}
+                if case.get('via') == 'plot':
+                    kw = {'origin': origin_arg(case)} if 'origin' in case else {}
+                    art = bb.plot(ax=plot_axes(), **kw, **caller)
+                    in_axes = art.axes is plot_axes()
+                    art.remove()
+                else:
+                    art = bb.as_artist(**caller)
+                    in_axes = None
+            out = {'cls': real_class(art).__name__, 'ctor': canon_ctor(*rec.log[-1]), 'in_axes': in_axes,
+                   'bbox_unchanged': repr(bb) == before}
             polys, _ = patch_polys(art)
             out['corners'] = [[float(x), float(y)] for x, y in polys[0][:4]]
             out['getters'] = self._getters(art, 'Patch', caller)
+            # the rectangle bbox.as_artist() gives (no origin argument there)
+            ref, _ = patch_polys(bb.as_artist())
+            out['as_artist_corners'] = [[float(x), float(y)] for x, y in ref[0][:4]]
             return out
         # shape / compound
         d = case['region']
@@ -1447,6 +1476,14 @@ class Check(PropertyCheck):
             v = build_visual(case['visual'])
             return [{'op': 'c18.kwargs', 'artist': case['artist'], 'visual': canon_kw(v), 'caller': cv(case['caller'])}]
         if kind == 'bbox':
+            if case.get('via') == 'plot':
+                # plot = to_region().plot(origin, ax): RectanglePixelRegion(PixCoord(*center[::-1]), width=nx, height=ny), angle 0
+                x0, x1, y0, y1 = case['box']
+                o = case.get('origin', [0, 0])
+                reg = {'kind': 'rectangle', 'include': 'absent', 'c': [frac(Fraction(x1 - 1 + x0, 2)), frac(Fraction(y1 - 1 + y0, 2))],
+                       'w': str(x1 - x0), 'h': str(y1 - y0), 'dir': ['1', '0'], 'deg': '0'}
+                return [{'op': 'c18.artist', 'region': reg, 'origin': [frac(F(o[0])), frac(F(o[1]))], 'visual': [],
+                         'caller': cv(case['caller'])}]
             return [{'op': 'c18.bbox', 'box': case['box']}]
         if kind == 'sequence':
             regs = build_pool(case)
@@ -1524,7 +1561,7 @@ class Check(PropertyCheck):
                 ok = ex(mv[0], rv[0]) and ex(mv[1], rv[1])
             elif key == 'verts':
                 rect = case['region']['kind'] == 'rectangle_annulus' or (
-                    case['region']['kind'] == 'compound' and 'rectangle' in (case['region']['a']['kind'], case['region']['b']['kind']))
+                    case['region']['kind'] == 'compound' and {'rectangle', 'regular_polygon'} & {case['region']['a']['kind'], case['region']['b']['kind']})
                 cmpf = cl if rect else ex
                 ok = len(mv) == len(rv) and all(cmpf(m[0], r[0]) and cmpf(m[1], r[1]) for m, r in zip(mv, rv))
             elif key in ('xdata', 'ydata'):
@@ -1558,6 +1595,12 @@ class Check(PropertyCheck):
             return True
         if kind == 'kwargs':
             return real['define'] == model['define'] and real['final_by_hand'] == model['final']
+        if kind == 'bbox' and case.get('via') == 'plot':
+            pc = {'kind': 'shape', 'region': {'kind': 'rectangle', 'c': [0.5 * (case['box'][0] + case['box'][1]), 0.5 * (case['box'][2] + case['box'][3])],
+                                              'w': case['box'][1] - case['box'][0], 'h': case['box'][3] - case['box'][2]},
+                  'origin': case.get('origin', [0, 0])}
+            return (real['cls'] == model['kind'] == real['ctor']['name']
+                    and self._args_equal(pc, real['ctor']['args'], model['args'], 'Rectangle') and real['ctor']['kw'] == model['kw'])
         if kind == 'bbox':
             ra, ma = real['ctor']['args'], model['args']
             ex = lambda m, r: float(Fraction(m)) == float(r)
@@ -1714,7 +1757,7 @@ class Check(PropertyCheck):
         icls = int_class(case) if kind == 'shape' else None
 
         def bad(k, detail, **kw):
-            ctx = {x: case[x] for x in ('pool', 'steps', 'region', 'numtype', 'origin', 'origin2', 'origin_type', 'via', 'prev', 'visual', 'caller', 'artist', 'box') if x in case}
+            ctx = {x: case[x] for x in ('pool', 'steps', 'region', 'numtype', 'via', 'origin', 'origin2', 'origin_type', 'via', 'prev', 'visual', 'caller', 'artist', 'box') if x in case}
             V.append(dict(kind=k, detail=f'{detail} :: {ctx}', int_class=icls, **kw))
         if kind == 'sequence':
             for n, (st, o) in enumerate(zip(case['steps'], real['steps'])):
@@ -1781,9 +1824,22 @@ class Check(PropertyCheck):
                     key=k, artist=ak, alias_of=shadow[0] if shadow else None)
         if kind == 'bbox':
             x0, x1, y0, y1 = case['box']
-            exp = [[x0 - 0.5, y0 - 0.5], [x1 - 0.5, y0 - 0.5], [x1 - 0.5, y1 - 0.5], [x0 - 0.5, y1 - 0.5]]
-            if real['cls'] != 'Rectangle' or real['corners'] != exp:
-                bad('bbox_patch_wrong', f'corners {real.get("corners")} expected {exp}')
+            ext = [[x0 - 0.5, y0 - 0.5], [x1 - 0.5, y0 - 0.5], [x1 - 0.5, y1 - 0.5], [x0 - 0.5, y1 - 0.5]]
+            if not real.get('bbox_unchanged', True):
+                bad('bbox_changed_by_drawing', 'the bounding box differs after drawing it')
+            if real['as_artist_corners'] != ext:
+                bad('bbox_patch_wrong', f'as_artist(): corners {real["as_artist_corners"]}, extent {ext}')
+            if case.get('via') == 'plot':
+                # the drawn corners are extent - origin, x with x and y with y: the as_artist() rectangle moved by -origin
+                o = case.get('origin', [0, 0])
+                exp = [[c[0] - float(o[0]), c[1] - float(o[1])] for c in ext]
+                t = 1e-9 * (max(abs(v) for v in case['box']) + abs(o[0]) + abs(o[1]) + 1)
+                if real['cls'] != 'Rectangle' or any(abs(g[0] - e[0]) > t or abs(g[1] - e[1]) > t for g, e in zip(real['corners'], exp)):
+                    bad('bbox_plot_wrong', f'plot(origin={o}): a {real["cls"]} with corners {real.get("corners")}; extent - origin = {exp}')
+                if not real.get('in_axes'):
+                    bad('plot_artist_not_in_axes', 'RegionBoundingBox.plot() did not add the patch to the axes given')
+            elif real['cls'] != 'Rectangle' or real['corners'] != ext:
+                bad('bbox_patch_wrong', f'corners {real.get("corners")} expected {ext}')
             return V
         d = case['region']
         ox, oy = float(case['origin'][0]), float(case['origin'][1])
@@ -1950,7 +2006,7 @@ class Check(PropertyCheck):
         if case['kind'] == 'kwargs':
             return f"kwargs/{case['artist']}"
         if case['kind'] == 'bbox':
-            return 'bbox'
+            return 'bbox/' + case.get('via', 'as_artist') + ('(origin)' if 'origin' in case else '')
         if case['kind'] == 'sequence':
             return f"sequence/{len(case['steps'])} calls/{'shared visual' if any('share' in e for e in case['pool']) else 'own visuals'}"
         b = f"{case['kind']}/{case['region']['kind']}"
